@@ -448,4 +448,36 @@ Section P.
         simpl in Hnd2. inversion Hnd2 as [|? ? Hk _]. apply Hk. left. reflexivity.
       + simpl in Hpos. lia.
   Qed.
+
+  (* conversely: a plain single winner is a strict maximum *)
+  Theorem get_n_best_1_cand votes c rest : NoDup (map fst votes) ->
+    @get_n_best C V leb votes 1 = Cand c :: rest ->
+    rest = [] /\ exists v, In (c, v) votes /\
+      forall c' v', In (c', v') votes -> c' <> c -> ltb v' v = true.
+  Proof.
+    intros Hnd Hr.
+    destruct (get_n_best_spec votes 1 (le_n 1)) as [Hsmall Hbig].
+    destruct (Nat.le_gt_cases (length votes) 1) as [Hle|Hgt].
+    - destruct (Hsmall Hle) as (s & Hp & _ & Hs). rewrite Hr in Hs.
+      destruct votes as [|[c0 v0] [|y t]]; simpl in Hle; try lia.
+      + apply Permutation_sym, Permutation_nil in Hp. subst s. discriminate.
+      + apply Permutation_sym, Permutation_length_1_inv in Hp. subst s. simpl in Hs. injection Hs as -> ->.
+        split; [reflexivity|]. exists v0. split; [left; reflexivity|].
+        intros c' v' [H|[]] Hne. injection H as -> _. congruence.
+    - destruct (Hbig Hgt) as (above & level & below & thr & Hp & _ & Ha & Hl & Hb & Hpos & Heq & Htie).
+      assert (above = []) as -> by (destruct above; [reflexivity|simpl in Hpos; lia]).
+      simpl in *.
+      destruct level as [|[c0 v0] [|y t]].
+      + simpl in Hpos. lia.
+      + rewrite (Heq eq_refl) in Hr. simpl in Hr. injection Hr as -> <-. split; [reflexivity|].
+        exists v0. split; [eapply Permutation_in; [exact Hp|left; reflexivity]|].
+        intros c' v' Hin Hne.
+        assert (Hin2 : In (c', v') ((c, v0) :: below)) by (eapply Permutation_in; [apply Permutation_sym, Hp|exact Hin]).
+        destruct Hin2 as [H|H]; [injection H as -> _; congruence|].
+        rewrite Forall_forall in Hb. pose proof (Hb _ H) as Hlt. simpl in Hlt.
+        inversion Hl as [|? ? Hv0 _]; subst. simpl in Hv0.
+        unfold GetNBest.eqv in Hv0. apply andb_true_iff in Hv0. destruct Hv0 as [_ Hv0].
+        eapply ltb_leb_trans; eassumption.
+      + rewrite Htie in Hr by (simpl; lia). simpl in Hr. discriminate.
+  Qed.
 End P.
